@@ -76,11 +76,21 @@ def dask_sources(tabs, layout):
 
 
 class _Pieces:
-    def __init__(self, frames):
+    """partition factory of the from_map sources; tokenized by content (a plain object would be tokenized through
+    pickle, which is not stable across interpreters for pandas objects)"""
+
+    def __init__(self, frames, named=True):
         self.frames = frames
+        if named:
+            self.__name__ = "pieces"       # dask's funcname() would otherwise put repr(self), memory address included, into the name
 
     def __call__(self, i):
         return self.frames[i]
+
+    def __dask_tokenize__(self):
+        import pandas as pd
+        return ("vx-pieces", tuple((tuple(map(str, f.columns)), str(f.index.name), len(f),
+                                    int(pd.util.hash_pandas_object(f, index=True).sum()) if len(f) else 0) for f in self.frames))
 
 
 # --------------------------------------------------------------------------------------------- building
